@@ -286,6 +286,68 @@ func (c *Ctx) runScopeRestore(r *Report, rule, pkgRel, recvType, setFn, popFn st
 		}
 	}
 	r.inst("scope.bindingmaps", n)
+
+	// scope.shadowclear: the entry function (scopeSet) saves the shadowed binding's
+	// attributes; every attribute map it reads for that purpose must also be cleared
+	// there for the new binding (delete or assignment under the same key), unless the
+	// map is the primary binding map, which every declaration overwrites itself (the
+	// one map that is read but listed as primary). An attribute left in place leaks
+	// from the shadowed binding to the new one (a pointer-let flag onto a plain var).
+	var set *funcInfo
+	for _, fn := range c.allFuncs() {
+		if fn.Pkg.Rel == pkgRel && fn.Name == recvType+"."+setFn {
+			set = fn
+		}
+	}
+	if set == nil {
+		return
+	}
+	info := set.Pkg.Info
+	read := map[string]string{}
+	cleared := map[string]bool{}
+	ast.Inspect(set.Decl.Body, func(m ast.Node) bool {
+		switch x := m.(type) {
+		case *ast.IndexExpr:
+			if se, ok := ast.Unparen(x.X).(*ast.SelectorExpr); ok {
+				if sel, ok := info.Selections[se]; ok && sel.Kind() == types.FieldVal && namedName(sel.Recv()) == recvType {
+					if _, isMap := sel.Type().Underlying().(*types.Map); isMap {
+						if _, seen := read[se.Sel.Name]; !seen {
+							read[se.Sel.Name] = c.pos(x.Pos())
+						}
+					}
+				}
+			}
+		case *ast.CallExpr:
+			if id, ok := x.Fun.(*ast.Ident); ok && id.Name == "delete" && len(x.Args) == 2 {
+				if se, ok := ast.Unparen(x.Args[0]).(*ast.SelectorExpr); ok {
+					cleared[se.Sel.Name] = true
+				}
+			}
+		case *ast.AssignStmt:
+			for _, l := range x.Lhs {
+				if ix, ok := ast.Unparen(l).(*ast.IndexExpr); ok {
+					if se, ok := ast.Unparen(ix.X).(*ast.SelectorExpr); ok {
+						cleared[se.Sel.Name] = true
+					}
+				}
+			}
+		}
+		return true
+	})
+	m := 0
+	for f, pos := range read {
+		m++
+		construct := pkgRel + "." + recvType + "." + setFn + ":" + f
+		switch {
+		case cleared[f]:
+			r.ok("scope.shadowclear", construct, pos, "")
+		case f == "locals":
+			r.exc("scope.shadowclear", construct, pos, "primary binding map: every declaration that calls "+setFn+" stores its own expression under the name right afterwards")
+		default:
+			r.viol("scope.shadowclear", construct, pos, set.id()+" saves the shadowed binding's entry in "+f+" but does not clear it for the new binding: the attribute of the outer declaration leaks onto an inner declaration of the same name")
+		}
+	}
+	r.inst("scope.shadowclear", m)
 }
 
 func init() {
